@@ -112,7 +112,7 @@ theorem pipeline_merge_sound {cfg : GenCfg} {o : GenOracles} {cmps : List Cmp} {
     WF g1 ∧ ∀ inp ∈ inputs, ∃ root, ∀ s ∈ inp.2, Inh o.accepts g1.look (.ptr root) s := by
   obtain ⟨wf0, gg0, hroots⟩ := buildGraph_sound hwf hnames hrep hrank h0
   have hK : ∀ k, KOf cfg k → wfSerName k = true := hnames
-  obtain ⟨_, hs⟩ := mergeModels_sound_core (acc := o.accepts) (mergeSoundP hK isIdx_alnum)
+  obtain ⟨_, hs⟩ := mergeModels_sound_core (acc := o.accepts) (mergeSoundPS hK isIdx_alnum)
     (optSoundP_weak hK isIdx_alnum hrep hrank) wf0 gg0 h1
   refine ⟨(mergeModels_struct wf0 h1).choose_spec.choose_spec.2.2.2.2.2.2.1, ?_⟩
   intro inp hinp
